@@ -94,11 +94,6 @@ func w1GenProduceHeavy(r *rand.Rand, c *simrt.Case, nclients, maxOps int, prop s
 
 // hooks that later files replace with real implementations
 var (
-	w1GenProp    = func(r *rand.Rand, c *simrt.Case, nclients, maxOps int, prop, tier string) { w1GenProduceHeavy(r, c, nclients, maxOps, prop) }
 	w1ExtraOp    = func(w *w1, client, seq int, op simrt.Op) {}
 	w1Authorizer = func(w *w1) *acl.Authorizer { return nil }
-	w1Malform    = func(b []byte, how string, nrec int) []byte { return b }
 )
-
-func (w *w1) judgeOffsets()      {}
-func (w *w1) opVerify(client int) {}
